@@ -31,16 +31,23 @@ theorem addIndex_rows {db : Db} {t t' : Tbl} {ix : Index} (h : addIndex db t ix 
       · cases h
       · cases h; rfl
 
-theorem applyStmt_safe_orig {ct : ConvTable} {db db' : Db} {s : Stmt} (hs : safe s = true)
-    (h : applyStmt ct db s = .ok db') : db'.orig = db.orig := by
-  cases s <;> simp [safe] at hs
-  · -- createTmp
-    simp only [applyStmt] at h
-    split at h
+/-- a successful `CREATE TABLE _alembic_tmp_<t>` adds exactly the empty new table -/
+theorem applyStmt_createTmp_ok {ct : ConvTable} {db db' : Db} {s : Schema} (h : applyStmt ct db (.createTmp s) = .ok db') :
+    db' = { db with tmp := some { schema := s, rows := [] } } := by
+  simp only [applyStmt] at h
+  split at h
+  · cases h
+  · split at h
     · cases h
     · split at h
       · cases h
       · cases h; rfl
+
+theorem applyStmt_safe_orig {ct : ConvTable} {db db' : Db} {s : Stmt} (hs : safe s = true)
+    (h : applyStmt ct db s = .ok db') : db'.orig = db.orig := by
+  cases s <;> simp [safe] at hs
+  · -- createTmp
+    rw [applyStmt_createTmp_ok h]
   · -- createTmpIndex
     simp only [applyStmt] at h
     split at h
